@@ -10,7 +10,7 @@ RULE = ("value classes per kind: numbers (rounding ties, 0, negatives, 10^k +- 1
         "unit, carry boundaries, en and tr), times with every 2-4 letter zone class, times under default zones with whole-hour and fractional offsets, dates (full and current-year form, every month, en and tr), "
         "all 33 units x amounts, dates in the years 1-150 reached by subtracting years, based integers (hex / octal / binary up to 2^60, hex digits that contain 0B0 / 0B1 / 0E / 0D) x separator conventions (',' '.'), ('.' ','), ('.' ''), (',' '') "
         "x number / percentage digit configurations (0-9 digits, remove-zero and rounding flags; the quick tier always includes 4 digits rounded and 5-6 digits unrounded) ; oracle: the printed form of the line, entered "
-        "as a new line under the same configuration and language, prints identically; non-trivial = printed form differs from the entered text; "
+        "as a new line under the same configuration and language, prints identically; dates (en and tr, every year class, with day arithmetic) and clock times under default zones incl. the extreme offsets on both sides (GMT+14, LINT, NZST, GMT-12, GMT-11:30) and zones drawn from the list; non-trivial = printed form differs from the entered text; "
         "distinct = distinct (configuration, language, text)")
 ASSUMPTIONS = ["date-times are not in the property's list of kinds", "a currency counts as readable when config.json gives the reader an alias or symbol for it"]
 TRUSTED = ["that every printed form lexes to one token of its kind is string level (regexes not modelled): decided by this enumeration"]
@@ -106,6 +106,10 @@ def gen_case(rng, dec, this_year):
     return lang, rng.choice([hex(n), oct(n), bin(n)]), "based"
 
 
+def m_long(rng):
+    return rng.random() < 0.5
+
+
 def first(r):
     if "lines" not in r or not r["lines"]:
         return None, None
@@ -183,6 +187,17 @@ def run(ctx, model_ok):
     # ---- clock times under a default zone other than UTC (whole-hour and fractional offsets): printed, entered again ----
     zs = ["NPT", "GMT+5:30", "GMT-3:30", "ACST", "EST", "CET", "GMT+14", "GMT-12"]
     tcases = []
+    # dates under a default zone: every zone of the list and the extreme offsets on both sides (the printed day is the entered day)
+    _, _, znames, months = tables()
+    dzs = zs + ["NZST", "LINT", "GMT+12", "GMT+13:45", "GMT+11:59", "GMT-11:30", "BIT", "PST", "JST"] + rng.sample(znames, ctx.n(4, 40))
+    for dz in dzs:
+        for _ in range(ctx.n(6, 60)):
+            lang = rng.choice(["en", "tr"])
+            y = rng.choice([this_year, rng.randint(1, 9999), rng.randint(1900, 2100)])
+            m, d = rng.randint(1, 12), rng.choice([1, 28, rng.randint(1, 28), 31 if m_long(rng) else 15])
+            if d == 31:
+                m = rng.choice([1, 3, 5, 7, 8, 10, 12])
+            tcases.append((dz, rng.choice([f"{d}/{m}/{y}", f"{d}/{m}/{y} + {rng.randint(0, 40)} {'days' if lang == 'en' else 'gün'}"]), lang))
     for dz in (zs if not ctx.quick() else rng.sample(zs, 4)):
         for _ in range(ctx.n(40, 600)):
             t = f"{rng.randint(0, 23)}:{rng.randint(0, 59):02d}" + (f":{rng.randint(0, 59):02d}" if rng.random() < 0.4 else "")
@@ -190,29 +205,30 @@ def run(ctx, model_ok):
                 t = f"{rng.randint(1, 11)}:{rng.randint(0, 59):02d} {rng.choice(['am', 'pm'])}"
             if rng.random() < 0.3:
                 t += " " + rng.choice(["EST", "CET", "IST", "UTC"])
-            tcases.append((dz, t))
+            tcases.append((dz, t, "en"))
     o1 = []
-    for dz, t in tcases:
-        o1 += [{"op": "tz", "v": dz}, {"op": "exec", "lang": "en", "text": t}]
+    for dz, t, lg in tcases:
+        o1 += [{"op": "tz", "v": dz}, {"op": "exec", "lang": lg, "text": t}]
     o1.append({"op": "tz", "v": "UTC"})
     q1 = C.run_impl(o1)
     o2, keep = [], []
-    for i, (dz, t) in enumerate(tcases):
+    for i, (dz, t, lg) in enumerate(tcases):
         v, out = first(q1[2 * i + 1])
         if v in (None, "err") or not out:
             ctx.count("base-not-evaluable:time-zone")
             continue
-        o2 += [{"op": "tz", "v": dz}, {"op": "exec", "lang": "en", "text": out}]
-        keep.append((dz, t, out))
+        o2 += [{"op": "tz", "v": dz}, {"op": "exec", "lang": lg, "text": out}]
+        keep.append((dz, t, out, lg, v.get("t") if isinstance(v, dict) else None))
     o2.append({"op": "tz", "v": "UTC"})
     q2 = C.run_impl(o2)
-    for i, (dz, t, out) in enumerate(keep):
+    for i, (dz, t, out, lg, kind) in enumerate(keep):
         v2, out2 = first(q2[2 * i + 1])
-        ctx.seen(("tz", dz, t), out != t)
-        ctx.count("kind:time-under-zone")
+        ctx.seen(("tz", dz, lg, t), out != t)
+        what = "date-under-zone" if kind == "D" else "time-under-zone"
+        ctx.count("kind:" + what)
         if out2 != out:
-            ctx.oracle_fail({"class": "roundtrip:time-under-zone", "what": f"default zone {dz}: '{t}' prints as '{out}', which entered again gives {out2!r}",
-                             "ops": [{"op": "tz", "v": dz}, {"op": "exec", "lang": "en", "text": t}, {"op": "exec", "lang": "en", "text": out}, {"op": "tz", "v": "UTC"}]})
+            ctx.oracle_fail({"class": "roundtrip:" + what, "what": f"default zone {dz}: '{t}' prints as '{out}', which entered again gives {out2!r}",
+                             "ops": [{"op": "tz", "v": dz}, {"op": "exec", "lang": lg, "text": t}, {"op": "exec", "lang": lg, "text": out}, {"op": "tz", "v": "UTC"}]})
     if model_ok:
         co = wire.Corr(ctx, compare=("kind", "value", "out"))
         cc = []
